@@ -163,6 +163,35 @@ def run_sized(case):
             "sample": {"seed": sd, "idx": idx, "grid": [w, h, d], "species": S, "records": K, "engine": kind_}}
 
 
+def run_many_requests(case):
+    """a long but valid list of requested times (60 000 - 100 001 values, several per step, some repeated): one record per step
+    that covers at least one of them, and the whole run returns within the CPU budget of this workload (60 s; it needs about 2)"""
+    use_repo()
+    engines.install()
+    import strengths as st
+    sd, idx = case["seed"], case["idx"]
+    r = gen.rng_for(sd, "C09many", idx)
+    nsteps = r.choice([6000, 10000])
+    per = r.choice([6, 10])
+    dt = 2.0 ** -10
+    ts = sorted([dt * (k + j / per) for k in range(nsteps) for j in range(per)] + [dt * nsteps] + [dt * r.randint(0, nsteps) for _ in range(50)])
+    kind_ = engines.KINDS[idx % 2]          # euler, tauleap
+    net = st.RDNetwork([st.Species("A", D=0.3, density=0)], [st.Reaction("A -> ", kf=0.2, kr=0.0)])
+    system = st.RDSystem(net, st.RDGridSpace(w=2, h=1, d=1), state=[1000.0, 10.0])
+    script = st.RDScript(system, t_sample=ts if r.random() < 0.5 else np.array(ts), time_step=dt, sampling_policy="on_t_sample", rng_seed=5,
+                         init_state_processing="none")
+    out = st.simulate_script(script, engines.get(kind_))
+    T = [float(x) for x in out.t.value]
+    bad = []
+    want = [dt * k for k in range(nsteps + 1)]
+    if T != want:
+        k = next((k for k, (a, b) in enumerate(zip(T, want)) if a != b), min(len(T), len(want)))
+        bad.append({"what": "many requested times: the records are not one per step covering a request", "requested": len(ts), "records": len(T),
+                    "expected_records": len(want), "first_difference": k, "engine": kind_, "case": case})
+    return {"bad": bad, "counts": {"many_request_runs": 1, "requested_times": len(ts)}, "key": chash(["many", sd, idx]), "nontrivial": True,
+            "sample": {"seed": sd, "idx": idx, "requested_times": len(ts), "steps": nsteps, "engine": kind_}}
+
+
 def run_case(case):
     use_repo()
     engines.install()
@@ -193,7 +222,16 @@ def run_case(case):
         dt = nsteps_target and (1.0 / a_tot)       # mean waiting time: horizon ~ nsteps events
     else:
         dt = 0.02 / maxrate * r.choice([1.0, 0.37, 2.5])
+    dyadic = kind_ != "gillespie" and r.random() < 0.15
+    if dyadic:
+        # a step that is a power of two (in seconds, the script counting in seconds): step times n*dt are exact, so requested
+        # times can coincide EXACTLY with step times - repeated ones, and clusters ending on a step time
+        dt = 2.0 ** math.floor(math.log2(dt))
     ts, style = sample_times(r, dt, nsteps_target)
+    if dyadic:
+        k1, k2 = r.randint(0, nsteps_target), r.randint(0, nsteps_target)
+        ts = sorted(ts + [0.0, 0.0, dt * k1, dt * k1, dt * k2, dt * (k2 - 0.5) if k2 else 0.0, dt * k2])
+        style += "+exact-duplicates"
     tmax_mode = r.choice(["default", "default", "before", "after", "inside"])
     if tmax_mode == "default":
         tmax = "default"
@@ -206,9 +244,11 @@ def run_case(case):
     interval_si = dt * r.choice([0.5, 1.0, 1.7, 3.0, 7.3, 1e-3, 1e-10, 1e-12])
     ms = gen.mild_sys(r)
     usys = (ms[0], r.choice(["s", "s", "ms", "min", "ds", "µs"]), "molecule")
+    if dyadic:
+        usys = (ms[0], "s", "molecule")
     sseed = r.randrange(2 ** 31)
     tsc = float(si.TIME[usys[1]])
-    t_in_other_unit = r.random() < 0.3
+    t_in_other_unit = r.random() < 0.3 and not dyadic
     via_setters = r.random() < 0.35
     from strengths import RDScript, UnitsSystem, UnitArray
 
@@ -218,7 +258,7 @@ def run_case(case):
         rr = gen.rng_for(sd, "C09q", idx)      # same surface forms for every policy
 
         def tq(x):
-            if rr.random() < 0.5:
+            if rr.random() < 0.5 or dyadic:
                 return float(x / tsc)
             own = rr.choice(["s", "ms", "min", "µs", "ds"])
             return "%r %s" % (float(x / float(si.TIME[own])), own)
@@ -513,6 +553,8 @@ def main():
     from vf.sandbox import run_extra as _run_extra
     _run_extra(run, "vf.checks.c09:run_sized", [{"seed": seed(), "idx": i} for i in range(300 if tier() == "thorough" else 40)], cpu_budget=300)
     run.require("sized_trajectories", "sized_trajectories_multiple_of_65536", "sized_grids_multiple_of_256_cells")
+    _run_extra(run, "vf.checks.c09:run_many_requests", [{"seed": seed(), "idx": i} for i in range(12 if tier() == "thorough" else 2)], cpu_budget=60)
+    run.require("many_request_runs")
     return run.finish()
 
 
